@@ -58,6 +58,7 @@ Fixpoint js_str (e : elem) : string :=
   | EInt z => itoa z
   | EStr s => s
   | EArr l => sjoin "," (map js_str l)
+  | EAtom _ text _ => text       (* floats and objects: their text (origami's AsString) *)
   end.
 Definition js_join (l : list elem) (sep : option string) : string :=
   sjoin (match sep with Some s => s | None => ","%string end) (map js_str l).
@@ -69,6 +70,7 @@ Definition strict_eqb (a b : elem) : bool :=
   | EBool x, EBool y => Bool.eqb x y
   | EInt x, EInt y => x =? y
   | EStr x, EStr y => String.eqb x y
+  | EAtom a _ _, EAtom b _ _ => Nat.eqb a b     (* equal floats / the same object *)
   | _, _ => false
   end.
 Fixpoint js_find_from (x : elem) (i : Z) (l : list elem) : Z :=
